@@ -18,7 +18,8 @@ import math
 import warnings
 import numpy as np
 import z3
-from ndvc import solve
+from ndvc import solve, xcheck
+from fractions import Fraction
 from ndvc.sym import R, C, real, cplx, lift, CTX, explore, NeedsConcrete, uf
 from ndvc.arr import SymArr, asobj, wrap
 from ndvc.overlay import PINV_LOG
@@ -248,6 +249,53 @@ class StubGen(object):
         return iter(self.steps())
 
 
+def native_hess(klass, method, order, full, arr1, hist, c0, gn, Qn, xn, hn, K):
+    """the harness of run_call on floats: quadratic f, geometric steps h_j * 2**-i, _extrapolate replaced by `row 0`"""
+    def run():
+        import numdifftools as nd
+        from numdifftools.multicomplex import Bicomplex
+        d = len(xn)
+
+        def f(z, scale=None):
+            if isinstance(z, Bicomplex):
+                zs = [Bicomplex(z.z1[i], z.z2[i]) for i in range(d)]
+                acc = Bicomplex(c0, 0)
+            else:
+                zs = list(z)
+                acc = c0
+            for i in range(d):
+                acc = acc + zs[i] * gn[i]
+                for j in range(d):
+                    acc = acc + (zs[i] * zs[j]) * (Qn[i][j] / 2)
+            if hist:
+                acc = acc * scale
+            if arr1 and not isinstance(acc, Bicomplex):
+                return np.array([acc])
+            return acc
+
+        class G(object):
+            step_ratio = 2.0
+
+            def step_generator_function(self, x, method='forward', n=1, order=2):
+                return self
+
+            def __call__(self):
+                return iter([hn * 0.5 ** i for i in range(K)])
+        kw = dict(step=G(), method=method, full_output=full)
+        if order is not None:
+            kw['order'] = order
+        obj = getattr(nd, klass)(f, **kw)
+
+        def spy(results, steps, shape):
+            return results[0].reshape(shape), nd.limits._Limit.info(np.zeros(results[0].shape).reshape(shape), steps[0].reshape(shape), np.arange(results.shape[1]))
+        obj._extrapolate = spy
+        with warnings.catch_warnings():
+            warnings.simplefilter('ignore')
+            r = (obj(xn, 1.25), obj(xn, -1.5))[1] if hist else obj(xn)
+        return r[0] if full else r
+    return run
+
+
 def run_call(klass, tier):
     info = dict(configs=0)
     with fd_env(names=ALL) as mm:
@@ -301,6 +349,19 @@ def run_call(klass, tier):
                             continue
                         info['configs'] += 1
                         out, inf = paths[0].value if full else (paths[0].value, None)
+                        if not cplxf:
+                            # engine cross-check on floats (same stubs, no overlay)
+                            asg = {'q': Fraction(1, 2), 'c': Fraction(3, 4), 's1': Fraction(5, 4), 's2': Fraction(-3, 2)}
+                            gn = np.zeros(d); Qn = np.zeros((d, d))
+                            for i_ in range(d):
+                                asg['x%d' % i_] = Fraction(3 * i_ - 2, 7); asg['h%d' % i_] = Fraction(i_ + 2, 16)
+                                gn[i_] = (i_ + 1) / 4.0; asg['g%d' % i_] = Fraction(float(gn[i_]))
+                                for j_ in range(i_, d):
+                                    Qn[i_, j_] = Qn[j_, i_] = ((5 * i_ + 3 * j_) % 7 - 3) / 2.0 + 0.25; asg['q%d%d' % (i_, j_)] = Fraction(float(Qn[i_, j_]))
+                            xcheck.defer(tag + 'engine==CPython(%s)' % klass, out, asg,
+                                         native_hess(klass, method, kw.get('order'), full, arr1, hist, 0.75, gn, Qn,
+                                                     np.array([float(asg['x%d' % i_]) for i_ in range(d)]), np.array([float(asg['h%d' % i_]) for i_ in range(d)]),
+                                                     8 if order == 2 else 10), pinv_log=list(PINV_LOG), rtol=1e-7, atol=1e-9)
                         H = paths[0].hyps + S2
                         for (M, P) in PINV_LOG:
                             T = M.shape[0]
@@ -324,6 +385,7 @@ def run_call(klass, tier):
                         if full:
                             solve.fact(tag + 'error_estimate-and-final_step-one-entry-per-result-entry',
                                        np.size(inf.error_estimate) == np.size(out) and np.size(inf.final_step) == np.size(out))
+    xcheck.flush()
     return info
 
 
